@@ -103,3 +103,27 @@ Lemma P_assign_alias_values :
   c09_assign_vs_lane_byref Nat.sub 0%nat [5; 7; 9]%nat 0 = [0; 7; 9]%nat /\
   c09_assign_vs_lane_byref Nat.sub 0%nat [5; 7; 9]%nat 2 = fst (c09_assign_vs_lane Nat.sub 0%nat [5; 7; 9]%nat 2).
 Proof. vm_compute. split; [|split]; reflexivity. Qed.
+
+(* ---- non-vacuity of the full-dispatch theorems (closed forms n = 2, 3) and of the horizontal maximum ---- *)
+Definition c09w_neg (a : c09w_T) : c09w_T := option_map (fun x => Qred (Qopp x)) a.
+Definition c09w_M3 : list (list (list c09w_T)) := c09w_zip [[2;1;0];[1;3;1];[0;1;4]]%Z [[1;2;3];[4;5;6];[7;8;10]]%Z.
+Definition c09w_M2 : list (list (list c09w_T)) := c09w_zip [[2;1];[1;3]]%Z [[0;1];[1;0]]%Z.
+Lemma P_example_closed_forms :
+  c09_v_det_full c09w_T c09w_T c09w_add c09w_sub c09w_mul c09w_div c09w_abs c09w_gt c09w_nz (c09w_q 0) (c09w_q 1) (c09w_q (-1)) 2 true 3 c09w_M3
+    = [c09w_q 18; c09w_q (-3)] /\
+  c09_s_det_full c09w_T c09w_T c09w_add c09w_sub c09w_mul c09w_div c09w_abs c09w_gt c09w_nz (c09w_q 0) (c09w_q 1) (c09w_q (-1)) true 3
+    (c09_lane_mat c09w_T (c09w_q 0) 1 c09w_M3) = c09w_q (-3) /\
+  c09_v_invert_full c09w_T c09w_T c09w_add c09w_sub c09w_mul c09w_div c09w_neg c09w_abs c09w_gt c09w_nz (c09w_q 0) (c09w_q 1) (c09w_q (-1)) 2 true 2 c09w_M2
+    = C09_Ok [[[Some (3 # 5); c09w_q 0]; [Some (-1 # 5); c09w_q 1]]; [[Some (-1 # 5); c09w_q 1]; [Some (2 # 5); c09w_q 0]]]%Q /\
+  (exists x, c09_v_solve_full c09w_T c09w_T c09w_add c09w_sub c09w_mul c09w_div c09w_abs c09w_gt c09w_nz (c09w_q 0) (c09w_q 1) (c09w_q (-1)) 2 true 3 c09w_M3
+               [[c09w_q 1; c09w_q 1]; [c09w_q 0; c09w_q 2]; [c09w_q 1; c09w_q 0]] = C09_Ok x).
+Proof. split; [|split; [|split]]; try (vm_compute; reflexivity). eexists. vm_compute. reflexivity. Qed.
+
+Lemma P_example_hmax :
+  (forall a b c, Nat.ltb a b = false -> Nat.ltb a c = true -> Nat.ltb c b = false) /\ (forall a, Nat.ltb a a = false) /\
+  c09_hmax Nat.ltb 0%nat [3; 7; 5]%nat = 7%nat /\ c09_hmin Nat.ltb 0%nat [3; 7; 2; 5]%nat = 2%nat.
+Proof.
+  split; [|split; [|split]]; try reflexivity.
+  - intros a b c H1 H2. apply Nat.ltb_ge in H1. apply Nat.ltb_lt in H2. apply Nat.ltb_ge. lia.
+  - intros. apply Nat.ltb_irrefl.
+Qed.
